@@ -4,7 +4,11 @@
 EXTENDS Codec, Json
 CONSTANT D
 VARIABLE n
-GInit == CInit /\ n = 0
+\* the exhaustive generator pairs the default-bearing pattern with the other
+\* dimensions (all 9 patterns occur, with every layout); the random walk draws it freely
+DfltFor(c) == [t \in {1, 2} |-> IF t = 1 THEN (CASE Cardinality(c.unset) % 3 = 0 -> "none" [] Cardinality(c.unset) % 3 = 1 -> "untouched" [] OTHER -> "set")
+                                 ELSE (CASE c.sel = "same" -> "none" [] c.sel = "none" -> "set" [] c.sel = "shift" -> "untouched" [] OTHER -> "none")]
+GInit == CInit /\ n = 0 /\ case.dflt = DfltFor(case)
 GNext == CNext /\ UNCHANGED n
 GSpec == GInit /\ [][GNext]_<<cvars, n>>
 SetSeq(S) == SetToSortSeq(S, LAMBDA a, b : a < b)
@@ -12,13 +16,14 @@ Out(c) == [s |-> [f \in SFields |-> SetSeq(c.s[f])],
            s2 |-> [f \in SFields |-> SetSeq(Sets(c, 2)[f])],
            filespecies |-> FileSpecies(c),
            unset |-> SetToSortSeq(c.unset, LAMBDA a, b : a = "t_f" \/ (a = "t_i" /\ b = "t_s")),
+           dflt |-> c.dflt, scal |-> [f \in Opt \cup OptD |-> [t \in Trajs |-> HeldBy(c, f, t)[2]]],
            sel |-> c.sel, layout |-> c.layout]
 EmitRead == phase = "read" => PrintT("@@" \o ToJson(Out(case)))
 
 \* random walk: every step draws a fresh case
 RandCase(k) == [s |-> [f \in SFields |-> RandomElement(SUBSET U)], sel |-> RandomElement(Selectors),
-             unset |-> RandomElement(SUBSET Opt), layout |-> RandomElement(Layouts)]
-SInit == case = RandCase(0) /\ phase = "read" /\ file = <<>> /\ back = <<>> /\ err = "none" /\ n = 0
-SNext == n < D /\ n' = n + 1 /\ case' = RandCase(n) /\ UNCHANGED <<phase, file, back, err>>
+             unset |-> RandomElement(SUBSET Opt), layout |-> RandomElement(Layouts), dflt |-> RandomElement(AllDflt)]
+SInit == case = RandCase(0) /\ phase = "read" /\ file = <<>> /\ back = <<>> /\ err = "none" /\ n = 0 /\ sfile = <<>> /\ sback = <<>>
+SNext == n < D /\ n' = n + 1 /\ case' = RandCase(n) /\ UNCHANGED <<phase, file, back, err, sfile, sback>>
 SSpec == SInit /\ [][SNext]_<<cvars, n>>
 =============================================================================
